@@ -16,6 +16,10 @@ type caPath struct {
 	Chain []*oracle.Cert // [issuing CA, ..., root]
 	Pre   *oracle.Cert   // optional precert-signing certificate issued by Chain[0]
 	Twin  *oracle.Cert   // optional re-issued root: same subject and key as the root, another serial and validity; also trusted
+	// optional cross-certificate: the root's subject and key, issued by another trusted root (CrossRoot); not itself trusted.
+	// A chain may end in it instead of the root: its path then leads on to CrossRoot.
+	Cross     *oracle.Cert
+	CrossRoot *oracle.Cert
 }
 
 // PKI is the certificate hierarchy of one run.
@@ -95,6 +99,15 @@ func NewPKI(t *kernel.Tape, epoch time.Time, maxRoots, maxInter int) *PKI {
 				NotBefore: epoch.AddDate(-1, 0, 0), NotAfter: epoch.AddDate(5, 0, 0), IsCA: true,
 				Exts: permute(t, []oracle.ExtKind{"bc", "ku", "ski", "aki", "ekuct"})})
 		}
+		if path.Twin == nil && r > 0 && p.Paths[0].Twin == nil && t.Chance(1, 2) {
+			// this CA's root is also cross-signed by the first root: same subject and key, another issuer
+			p.serial++
+			spec := root.Spec
+			spec.Serial = p.serial
+			spec.Issuer = p.Roots[0]
+			spec.Exts = permute(t, []oracle.ExtKind{"bc", "ku", "ski", "aki"})
+			path.Cross, path.CrossRoot = oracle.Build(spec), p.Roots[0]
+		}
 		p.Paths = append(p.Paths, path)
 	}
 	return p
@@ -132,6 +145,11 @@ func (p *PKI) NewLeaf(t *kernel.Tape, id int, allowPre bool) *Submission {
 	if isPre && path.Pre != nil && t.Chance(1, 2) {
 		issuer = path.Pre
 		issuers = append([]*oracle.Cert{path.Pre}, path.Chain...)
+	}
+	if path.Cross != nil && t.Chance(1, 2) {
+		// the submitter's chain ends in the cross-certificate instead of the CA's own root: the validated chain follows
+		// it to the root that signed it
+		issuers = append(append([]*oracle.Cert{}, issuers[:len(issuers)-1]...), path.Cross, path.CrossRoot)
 	}
 	kind := kindsLeaf[t.Intn(len(kindsLeaf))]
 	exts := []oracle.ExtKind{"aki", "ski"}
